@@ -282,7 +282,18 @@ func (v *FnV) unary(st *State, x *ast.UnaryExpr) Value {
 			}
 		}
 		if se, ok := inner.(*ast.SelectorExpr); ok {
-			// &x.f : unsupported precisely (interior pointer); havoc a non-nil pointer
+			// &x.f as a call argument: copy-in / copy-out through a temporary
+			// cell (precise when the callee does not retain the pointer; the
+			// copy-out happens when the enclosing call returns).
+			if sel := v.info().Selections[se]; sel != nil && sel.Kind() == types.FieldVal && v.callDepth > 0 {
+				cur := v.expr(st, se)
+				ref := v.alloc(st, "iptr")
+				v.store(st, cur.T, ref, cur.S)
+				v.wb = append(v.wb, wbEntry{ref: ref, lhs: se, t: cur.T, depth: v.callDepth})
+				v.abstract(x, "interior pointer &x.f passed to a call by copy-in/copy-out (callee assumed not to retain it)")
+				return Value{T: t, S: ref}
+			}
+			// otherwise unsupported precisely (interior pointer); havoc a non-nil pointer
 			v.expr(st, se.X)
 		}
 		if ie, ok := inner.(*ast.IndexExpr); ok {
